@@ -1,6 +1,7 @@
 // vmain.cpp - entry point of a corpus binary:  <bin> dump            -> NODE/NAME/ACT/REG lines
 //                                             <bin> run <cases>     -> one RUN line per case "gid cfg hexinput"
 #include "vharness.hpp"
+#include <cstdlib>
 #include <fstream>
 #include <iostream>
 void register_all();
@@ -30,6 +31,7 @@ int main( int argc, char** argv )
    for( const auto& e : vh::registry() ) {
       m[ { e.gid, e.cfg } ] = &e;
    }
+   const bool echo = std::getenv( "VH_ECHO" ) != nullptr;
    std::ifstream f( argv[ 2 ] );
    int gid;
    std::string cfg, h;
@@ -37,6 +39,9 @@ int main( int argc, char** argv )
       const auto it = m.find( { gid, cfg } );
       if( it == m.end() ) {
          continue;
+      }
+      if( echo ) {
+         std::fprintf( stderr, "CASE %d %s %s\n", gid, cfg.c_str(), h.c_str() );
       }
       it->second->fn( gid, it->second->root, cfg, unhex( h ) );
    }
